@@ -233,7 +233,7 @@ func propC18Strconv(t *rapid.T) {
 			nt = true
 		}
 	}
-	switch rapid.IntRange(0, 12).Draw(t, "which") {
+	switch rapid.IntRange(0, 14).Draw(t, "which") {
 	case 0:
 		liftCheck(t, "strconv.Atoi", nil, rostrconv.Atoi[string](), in, strconv.Atoi)
 	case 1:
@@ -272,6 +272,16 @@ func propC18Strconv(t *rapid.T) {
 	case 12:
 		xs := rapid.SliceOfN(rapid.Rune(), 0, 4).Draw(t, "runes")
 		liftCheck(t, "strconv.QuoteRune", nil, rostrconv.QuoteRune(), xs, func(x rune) (string, error) { return strconv.QuoteRune(x), nil })
+	case 13:
+		liftCheck(t, "strconv.ParseUint64", []any{base, bits}, rostrconv.ParseUint64[string](base, bits), in, func(s string) (uint64, error) { return strconv.ParseUint(s, base, bits) })
+	case 14:
+		xs := rapid.SliceOfN(rapid.Custom(func(t *rapid.T) complex128 {
+			return complex(rapid.Float64().Draw(t, "re"), rapid.Float64().Draw(t, "im"))
+		}), 0, 4).Draw(t, "complexes")
+		f := rapid.SampledFrom([]byte{'e', 'E', 'f', 'g', 'G', 'b', 'x', 'X'}).Draw(t, "fmt")
+		p := rapid.IntRange(-1, 20).Draw(t, "prec")
+		bs := rapid.SampledFrom([]int{64, 128}).Draw(t, "cbits")
+		liftCheck(t, "strconv.FormatComplex", []any{string(f), p, bs}, rostrconv.FormatComplex(f, p, bs), xs, func(x complex128) (string, error) { return strconv.FormatComplex(x, f, p, bs), nil })
 	}
 	rt.Case(caseKey("strconv", fmt.Sprintf("%q", in), base, bits), nt, "strconv", func() any { return map[string]any{"inputs": fmt.Sprintf("%q", in), "base": base, "bitSize": bits} })
 }
